@@ -57,6 +57,7 @@ let rec parse_ops toks = match toks with
   | "aclone" :: s :: d :: r -> OArrClone (nat s, nat d) :: parse_ops r
   | "aclear" :: d :: r -> OArrClear (nat d) :: parse_ops r
   | "detach" :: a :: r -> ODetach (nat a) :: parse_ops r
+  | "detachf" :: a :: r -> ODetachF (nat a) :: parse_ops r
   | "setin" :: m :: a :: r -> OSetInner (nat m, nat a) :: parse_ops r
   | "defer" :: s :: d :: r -> ODefer (nat s, nat d) :: parse_ops r
   | "force" :: s :: v :: r -> OForce (nat s, n_of_hex v) :: parse_ops r
